@@ -342,6 +342,12 @@ def standard_check(prop, tier, seed, widen=False, gen=None, race=False):
             coq_n, coq_ok, coq_detail = coqsample.run(prop, u, cases, obs, limit=30 if tier == 'quick' else 300)
         except Exception as e:
             coq_n, coq_ok, coq_detail = 0, False, 'in-Coq sample could not be built: %r' % e
+    elif prop == 'C17':
+        try:
+            coq_n, coq_ok, coq_detail = coqsample.run_env(prop, cases, obs)
+        except Exception as e:
+            coq_n, coq_ok, coq_detail = 0, False, 'in-Coq sample could not be built: %r' % e
+    if prop in ('C01', 'C02', 'C03', 'C04', 'C05', 'C09', 'C10', 'C11', 'C17'):
         if not coq_ok:
             failures.append({'id': 'coq-sample', 'case': '(coq-sample)', 'tags': ['corr-coq-sample'], 'detail': coq_detail, 'obs': '', 'decisive': False})
     # statistics
